@@ -179,7 +179,7 @@ def wrap_item(unit, item_text):
     pre, post = "", ""
     mod = unit.get("mod") or ("unit_scope" if unit.get("broadcast") else None)
     if mod:
-        pre += f"pub mod {mod} {{\nuse super::*;\n"
+        pre += f"pub mod {mod} {{\nuse super::*;\n" + unit.get("mod_extra", "")
         if unit.get("broadcast"):
             # axioms are revealed only inside the module of the function under contract
             pre += "broadcast use " + ", ".join(unit["broadcast"]) + ";\n"
@@ -226,6 +226,10 @@ def build_file(unit, units_by_id, prelude_text, types_text, machine_text, out_pa
         parts.append(pre + "".join(items) + post + "\n")
     for frag in unit.get("fragments", []):
         parts.append(open(os.path.join(VERIF, "verus", frag + ".rs")).read())
+    for tspec in unit.get("unit_types", []):
+        # types of /repo only this unit needs, copied verbatim like the global ones
+        ttext, _tsha, _tdropped = extract_type(tspec)
+        parts.append(ttext + "\n")
     if unit.get("extra"):
         parts.append(unit["extra"])
     ctext, clause_rel = render_contract(fn, unit, False)
